@@ -107,6 +107,13 @@ def run(ctx):
                         allok = False
                         why.append("default algorithm is %s, not the documented ES256" % p.d["agg"].get("variant"))
                     continue
+                # the `alg` member of jsonwebtoken's own parse of the same presented token's header (`decode_header(token)?.alg`)
+                if p.kind == "field" and p.d.get("name") == "alg" and (p.d.get("adt") or "").endswith("Header"):
+                    hdrs = [x for x in walk(p) if x.kind == "call" and (x.d["term"].get("resolved") or "") == "jsonwebtoken::decode_header"]
+                    if hdrs and must(p, lambda x: x in hdrs) and all(must(h.kids[0], lambda y: is_field(y, "unverified_sd_jwt")) for h in hdrs):
+                        gsb = [success_edges(fn, h) for h in hdrs]
+                        if all(g_ and b not in cfg.reachable(fn, [t_ for (_, t_) in bad_ if fn.term(t_)["k"] != "unreachable"]) for (g_, bad_) in gsb):
+                            continue
                 fs = [x for x in walk(alt) if x.kind == "call" and x.d["term"].get("name") == "from_str" and (x.d["term"].get("self_ty") or "") == "jsonwebtoken::Algorithm"]
                 if not fs or not must(alt, lambda x: x in fs):
                     allok = False
@@ -126,7 +133,10 @@ def run(ctx):
     for (fn, b, node, _) in A.other_decodes:
         ctx.finding("C02.R2", fn, "decode-unknown-key", "a jsonwebtoken::decode reachable from the verifier uses a key that comes neither from the resolver nor from the confirmed holder key: %s" % vstr(node.kids[1], 4), line=fn.term(b).get("line"))
     # ---- R6: the string that is verified is the presented JWT verbatim, and the payload whose `iss` feeds the resolver is that token's payload
-    tok_writes = [w for w in (common.struct_field_writes(fx, COMMON, "unverified_sd_jwt") or []) if not w["fn"].is_macro_generated() and w["how"] in ("assign", "calldest") and w["fn"].name in A.reach]
+    # judged in the canonical views of the functions that are subjects of their own (a private `set_token(jwt, ..)` helper is spliced into
+    # both parsers and its writes are judged there, with each parser's arguments)
+    r6_views = fx.subjects(sorted(A.reach))
+    tok_writes = [w for w in (common.struct_field_writes(fx, COMMON, "unverified_sd_jwt", fns=r6_views) or []) if not w["fn"].is_macro_generated() and w["how"] in ("assign", "calldest")]
     ctx.floor("C02.R6", "assignments of the token that is verified", len(tok_writes), 1)
     tokens = {}
     for w in tok_writes:
@@ -137,7 +147,7 @@ def run(ctx):
         else:
             tokens[f.name] = (kind, det)
             ctx.ok("C02.R6", f, "token-verbatim:%s" % kind, "unverified_sd_jwt is %s" % ("the first `~`-separated part of the input, unmodified" if kind == "compact" else "{protected}.{payload}.{signature} of the parsed JSON object"), line=w["line"])
-    for w in [w for w in (common.struct_field_writes(fx, COMMON, "unverified_input_sd_jwt_payload") or []) if not w["fn"].is_macro_generated() and w["how"] in ("assign", "calldest") and w["fn"].name in A.reach]:
+    for w in [w for w in (common.struct_field_writes(fx, COMMON, "unverified_input_sd_jwt_payload", fns=r6_views) or []) if not w["fn"].is_macro_generated() and w["how"] in ("assign", "calldest")]:
         f = w["fn"]
         decs = [x for x in walk(w["value"]) if x.kind == "call" and (x.d["term"].get("resolved") or "") == "utils::jwt_payload_decode"]
         if not decs or not must(w["value"], lambda x: x in decs):
